@@ -33,7 +33,7 @@ def nontrivial(spec):
     if spec["n"] < 2:
         return False
     for o in spec["ops"]:
-        if len(o["regs"]) == 2 and tuple(o["regs"]) != (0, 1):
+        if len(o["regs"]) >= 2 and tuple(o["regs"]) != tuple(range(len(o["regs"]))):
             return True
         if len(o["regs"]) == 1 and o["regs"][0] != 0 and o["cls"] in ("LossChannel", "ThermalLossChannel", "Thermal",
                                                                       "Coherent", "Squeezed", "DisplacedSqueezed", "Vacuum"):
@@ -42,27 +42,50 @@ def nontrivial(spec):
 
 
 def fock_ok(spec):
-    return spec["n"] <= 3 and not any(o["cls"] == "ThermalLossChannel" for o in spec["ops"])
+    alive = peak = spec["n"]
+    for o in spec["ops"]:
+        if o["cls"] == "New":
+            alive += len(o["regs"])
+        elif o["cls"] == "Del":
+            alive -= len(o["regs"])
+        peak = max(peak, alive)
+    return peak <= 3 and not any(o["cls"] in ("ThermalLossChannel", "PassiveChannel", "Gaussian") for o in spec["ops"])
 
 
-def fock_delta(sf, spec, refm, cutoff, pure):
-    st, _ = sim.run_spec(sf, spec, "fock", cutoff_dim=cutoff, pure=pure)
+def fock_delta(sf, spec, refm, cutoff, pure, cache=None):
+    st, _ = sim.run_spec(sf, spec, "fock", cutoff_dim=cutoff, pure=pure, op_cache=cache)
     a, N, M, tr = sim.moments_fock(st)
     return sim.moment_dist(refm, (a, N, M)), 1 - tr
 
 
 def check_program(ctx, sf, spec, fock=True, cutoff=9):
+    """guard: an exception raised while evaluating a program on the real code is a failing input, not a harness crash"""
+    try:
+        _check_program(ctx, sf, spec, fock, cutoff)
+    except Exception as e:  # noqa: BLE001
+        import traceback
+        where = traceback.extract_tb(e.__traceback__)[-1]
+        ctx.fail(f"evaluation-raises:{type(e).__name__}", f"evaluating a program raised {type(e).__name__}: {e} "
+                 f"({where.name}:{where.lineno})", dict(kind="program", spec=spec, hbar=sf.hbar))
+
+
+def _check_program(ctx, sf, spec, fock=True, cutoff=9):
     """run one program everywhere; ctx.fail on a disagreement.  Returns nothing."""
     ref = sim.reference(spec, sf.hbar)
-    refm = ref.alpha_N_M()
+    refm = sim.restrict_moments(ref.alpha_N_M(), ref.active)     # back ends return the active modes in index order
     rp = dict(kind="program", spec=spec, hbar=sf.hbar)
+    # half of the runs share Operation instances between equal operations (and across the back ends of this program)
+    cache = {} if ctx.oracle_cases % 2 == 0 else None
     ctx.oracle_cases += 1
     results = {}
     for be in ("gaussian", "bosonic"):
         try:
-            st, _ = sim.run_spec(sf, spec, be)
+            st, _ = sim.run_spec(sf, spec, be, op_cache=cache)
             m = sim.moments_gaussian(st, sf.hbar) if be == "gaussian" else sim.moments_bosonic(st, sf.hbar)
         except Exception as e:  # noqa: BLE001
+            if type(e).__name__ in ("CircuitError", "NotImplementedError"):
+                ctx.tally(f"not-accepted:{be}")       # the property speaks about programs a back end accepts
+                continue
             ctx.fail(f"{be}-raises:{type(e).__name__}", f"{be} back end raised {type(e).__name__}: {e} on an accepted program",
                      rp)
             continue
@@ -78,7 +101,7 @@ def check_program(ctx, sf, spec, fock=True, cutoff=9):
     if fock and fock_ok(spec):
         for pure in (True, False):
             try:
-                d, loss = fock_delta(sf, spec, refm, cutoff, pure)
+                d, loss = fock_delta(sf, spec, refm, cutoff, pure, cache)
             except Exception as e:  # noqa: BLE001
                 ctx.fail(f"fock-raises:{type(e).__name__}", f"fock back end (pure={pure}) raised {type(e).__name__}: {e}", rp)
                 continue
@@ -169,7 +192,8 @@ def culprit(sf, spec, backend, pure=True):
     try:
         for k in range(1, len(spec["ops"]) + 1):
             sub = dict(n=spec["n"], ops=spec["ops"][:k])
-            refm = sim.reference(sub, sf.hbar).alpha_N_M()
+            r = sim.reference(sub, sf.hbar)
+            refm = sim.restrict_moments(r.alpha_N_M(), r.active)
             if backend == "fock":
                 d, loss = fock_delta(sf, sub, refm, 12, pure)
                 bad = d > 5 * 12 * loss + 1e-5
@@ -209,6 +233,7 @@ def run(ctx, sf):
         ctx.count("corpus", spec, nontrivial(spec))
         check_program(ctx, sf, spec)
     rng = ctx.rng
+    nprng = ctx.nprng(11)
     n_prog = ctx.n(60, 700)
     for it in range(n_prog):
         n = rng.choice([1, 2, 2, 3, 3, 3, 4])
@@ -216,10 +241,24 @@ def run(ctx, sf):
         if rng.random() < 0.5 and n >= 2:      # make sure spectators are in a correlated state first
             spec["ops"] = sim.correlated_prefix(rng, n) + spec["ops"][:4]
         fock = (it % 3 != 2) if ctx.tier == "quick" else True
+        if it % 7 == 2:                 # near-duplicate, unrounded parameters (a stale or coarsely keyed cache would mix them up)
+            for o in list(spec["ops"]):
+                if o["cls"] in ("Sgate", "BSgate", "Rgate", "Dgate", "S2gate") and o["pars"]:
+                    twin = copy.deepcopy(o)
+                    twin["pars"][0] = o["pars"][0] + rng.choice([1e-4, 3e-5, -2e-4]) * (1 + rng.random())
+                    spec["ops"].append(twin)
+                    break
+        if it % 4 == 1:     # natively applied multi-mode operations of the phase-space back ends (mode lists in any order)
+            extra = sim.rand_passive_op(rng, nprng, n) if it % 8 == 1 else sim.rand_gaussian_prep_op(rng, nprng, n)
+            spec["ops"].insert(rng.randint(0, len(spec["ops"])), extra)
+            fock = False
+        if it % 5 == 3 and n >= 2:      # registers with holes / late modes (index != position), inserted last
+            spec = progs.with_del_new(rng, spec, p_del=1.0, p_new=0.5)
+            spec["ops"] = [o for o in spec["ops"] if o["cls"] != "MeasureFock"]
         ctx.count("program:n=%d" % n, spec, nontrivial(spec), sample=spec)
         for o in spec["ops"]:
             ctx.tally("op:" + o["cls"] + (".H" if o.get("dagger") else ""))
-        check_program(ctx, sf, spec, fock=fock and n <= 3)
+        check_program(ctx, sf, spec, fock=fock)
     for it in range(ctx.n(30, 300)):
         spec = rand_fock_program(rng, rng.choice([1, 2, 2, 3]))
         ctx.count("fock-pure-vs-mixed", spec, nontrivial(spec) or spec["n"] >= 2)
